@@ -18,6 +18,14 @@ CHECKS = {
                 technique="runtime monitoring over a bounded-exhaustive configuration matrix: scripted responses whose trailing bytes make each framing interpretation recognisable, reference decision list as oracle",
                 text="Enumerates method x status x Content-Length configuration x Transfer-Encoding configuration x extra bytes (20k heads, x3 segmentations in thorough) through the production pipeline; the body delivered must be the one of the framing the RFC 9112 §6.3 decision list selects, and invalid or disagreeing lengths must fail the exchange.",
                 note="The decision list in the harness is written from the statement; combinations the statement does not fix are executed but not judged (listed in the evidence assumptions)."),
+    "C04": dict(cat="exploration", design="DESIGN.md §3 C04",
+                technique="runtime monitoring: generator-built response heads through the scripted transport, generator-as-oracle comparison of status and per-name header sequences",
+                text="All status codes 100..999, generated header lists (token-alphabet names, obs-text, blanks, duplicates, bare-LF continuations, > 8 KiB blocks, exactly max_headers fields) under all 2^13 segmentations of a 14-byte head, every split point of 10 bases, bytewise and random segments; status(), per-name get_all() order and values, total count and the hiding of Transfer-Encoding are compared with what the generator put on the wire.",
+                note="Only syntactically valid heads are judged. Header values are compared after the normalisation the statement prescribes (trim spaces, LF -> space)."),
+    "C19": dict(cat="fault_enumeration", design="DESIGN.md §3 C19",
+                technique="runtime monitoring with pause injection: the scripted peer stops at every wire offset; blocked transport reads are compared with the payload available at that point (reference decoder), no clock involved",
+                text="For every pause offset of 18 fixed responses (and sampled offsets of random / > 64 KiB bodies) x segmentation x read size, send() must return once the blank line arrived and every byte the statement calls available must be readable before any transport read reaches the pause; end-of-body must be reported without blocking once the frame is complete, and bodiless responses must read as empty without blocking.",
+                note="Logical oracle on the hooked transport: a read at a Pause step is what would block on a real socket. Uncompressed bodies only."),
 }
 
 NOT_APPLICABLE = {}
